@@ -135,7 +135,7 @@ func (h *handler) Handle(ctx context.Context, header *protocol.RequestHeader, re
 		}
 		if h.autoCreateTopics && len(topicNames) > 0 {
 			for _, name := range topicNames {
-				if strings.TrimSpace(name) == "" {
+				if strings.TrimSpace(name) == "" || !metadata.ValidTopicName(name) {
 					continue
 				}
 				if err := h.ensureTopic(ctx, name, 0); err != nil {
@@ -1246,7 +1246,7 @@ func (h *handler) handleDeleteTopics(ctx context.Context, header *protocol.Reque
 }
 
 func (h *handler) validateCreateTopic(ctx context.Context, topic kmsg.CreateTopicsRequestTopic) error {
-	if topic.Topic == "" || topic.NumPartitions <= 0 {
+	if !metadata.ValidTopicName(topic.Topic) || topic.NumPartitions <= 0 {
 		return metadata.ErrInvalidTopic
 	}
 	replicationFactor := topic.ReplicationFactor
